@@ -105,7 +105,13 @@ func c07Chq(capacity int, steps []string) string {
 			if closed {
 				return "skip"
 			}
-			return c07ShowErr(ch.PutWithTimeout(c07Arg(tok), 30*time.Millisecond))
+			// the timeout branch is expected only when the send cannot proceed; when it can, a long timeout keeps a
+			// descheduled thread (timer already expired when the select is finally evaluated) from flipping the result
+			d := 30 * time.Millisecond
+			if len(ch) < cap(ch) {
+				d = c07LongTimeout
+			}
+			return c07ShowErr(ch.PutWithTimeout(c07Arg(tok), d))
 		case strings.HasPrefix(tok, "U:"):
 			if closed || len(ch) >= cap(ch) {
 				return "skip"
@@ -114,7 +120,11 @@ func c07Chq(capacity int, steps []string) string {
 		case tok == "p":
 			return c07ShowVal(ch.Poll())
 		case tok == "t":
-			return c07ShowVal(ch.TakeWithTimeout(30 * time.Millisecond))
+			d := 30 * time.Millisecond
+			if len(ch) > 0 || closed {
+				d = c07LongTimeout
+			}
+			return c07ShowVal(ch.TakeWithTimeout(d))
 		case tok == "T":
 			if len(ch) == 0 && !closed {
 				return "skip"
@@ -186,6 +196,10 @@ func c07IdleDur() time.Duration {
 }
 
 const c07Wait = 5 * time.Second
+
+// c07LongTimeout is passed to PutWithTimeout / TakeWithTimeout when the harness has observed (len/cap of the real
+// channel) that the operation can complete at once: both select branches being ready is then practically impossible.
+const c07LongTimeout = 20 * time.Second
 
 func (m *c07Sched) sync() {
 	if m.lstate != 0 || m.broken {
@@ -283,7 +297,13 @@ func (m *c07Sched) step(tok string) (out string) {
 		if inpass {
 			return "skip"
 		}
-		return c07ShowVal(m.q.TakeWithTimeout(40 * time.Millisecond))
+		// the loader is parked, so nothing can arrive during the call: with a value in the channel the receive is
+		// immediately ready (long timeout: no false "timeout" on a loaded machine), without one the timeout fires
+		d := 40 * time.Millisecond
+		if len(m.handle) > 0 {
+			d = c07LongTimeout
+		}
+		return c07ShowVal(m.q.TakeWithTimeout(d))
 	case tok == "T":
 		if inpass || len(m.handle) == 0 {
 			return "skip"
